@@ -325,8 +325,12 @@ FIELD = {"cfg": "configuration", "ctx": "context", "status": "status", "exc": "e
 
 def enum_case(res: Result, spec, idx):
     pname = ("effects", "full", "core")[idx % 3]
+    # every fourth machine can complete (top-level final state -> optional on_done hook) and
+    # invokes services some of which fail unhandled (-> on_service_* hooks, optional on_error hook)
+    ends = idx % 2 == 1
     P = gen.profile(pname, p_neutral_fx=0.5, p_effects=0.5, p_after=0.06, maxit=3000,
-                    p_root_final=0.0)
+                    p_root_final=0.35 if ends else 0.0, p_invoke=0.25 if ends else 0.0,
+                    p_invoke_fail=0.4, p_final_trans=0.3 if ends else 0.0)
     case = gen.gen_case(rng_for(spec["seed"], ID, spec["chunk"], idx, "case"), P)
     nev = NEV[spec["tier"]]
     grng = rng_for(spec["seed"], ID, spec["chunk"], idx, "gt")
@@ -453,6 +457,13 @@ def enum_case(res: Result, spec, idx):
 # aborting errors
 # ---------------------------------------------------------------------------
 def abort_case(res: Result, spec, idx, case, events, gtables):
+    if case.invokes:
+        # a re-armed service that completes at once re-triggers the transition that failed, for
+        # ever (that is what "re-armed" means); such a run never settles, so a snapshot of it
+        # would be taken mid-transition.  Aborts are judged on machines without invocations; the
+        # re-entry template covers services.
+        res.count("aborts.skipped-machine-with-services")
+        return
     frng = rng_for(spec["seed"], ID, spec["chunk"], idx, "abort")
     names = [n for n in gen.action_names(case.plan)]
     if not names:
@@ -556,7 +567,9 @@ def abort_case(res: Result, spec, idx, case, events, gtables):
                 res.violation("C07:raw-exception-after-abort/" + key,
                               "later events raised %s" % [t_["exc"] for t_ in later if t_["exc"]][:2],
                               wit, case={"idx": idx})
-            if later and later[-1]["status"] != "running":
+            can_end = any(n.kind == "final" and n.parent is case.tree.root for n in case.tree.order)
+            if later and later[-1]["status"] != "running" and not (
+                    can_end and later[-1]["status"] == "done"):
                 res.violation("C07:interpreter-not-running-after-abort/" + key,
                               "status %s" % later[-1]["status"], wit, case={"idx": idx})
             for t_ in later:
@@ -682,7 +695,16 @@ def run_chunk(spec):
     for j in range(spec["n"]):
         wd.arm("idx=%d" % (base + j))
         enum_case(res, spec, base + j)
+    from .c04 import faulty_event_in_the_middle
     k = 0
+    for engine in ("sync", "async"):
+        for fault in ("missing-action", "unresolvable-target"):
+            for nb, na in ((1, 2), (2, 0)):
+                if k % 16 == spec["chunk"] % 16:
+                    wd.arm("events behind an aborted transition %s %s" % (engine, fault))
+                    faulty_event_in_the_middle(res, engine, fault, nb, na, False, pid=ID)
+                    res.count("aborts.events-queued-behind")
+                k += 1
     for engine in ("sync", "async"):
         for how in ("self", "up", "sib"):
             for fail_on in (2, 3, 5):
@@ -697,9 +719,10 @@ def run_chunk(spec):
 def quota(counters, tier):
     out = []
     for k in ("faults.action", "faults.cb.log", "faults.hook:on_transition",
-              "faults.hook:on_action_execute", "faults.hook:on_event_received", "faults.sub",
+              "faults.hook:on_action_execute", "faults.hook:on_event_received", "faults.hook:on_done",
+              "faults.hook:on_service_start", "faults.sub",
               "faults.listener", "faults.pair", "aborts.missing-action",
-              "aborts.async-action-under-sync", "aborts.unresolvable-target", "aborts.reentry-template",
+              "aborts.async-action-under-sync", "aborts.unresolvable-target", "aborts.reentry-template", "aborts.events-queued-behind",
               "aborts.triggered.sync", "aborts.triggered.async", "aborts.rollback-judged",
               "aborts.timer-census-compared"):
         if counters.get(k, 0) == 0:
